@@ -3237,3 +3237,18 @@ Proof. split; [apply fifo_guardedb_ok; vm_compute; reflexivity|]. vm_compute. sp
 (* ... and the history of observers_fifo_refuted is not *)
 Example stale_snapshot_not_guarded : fifo_guardedb (init [0; 0] false) stale_snapshot_ops = false.
 Proof. vm_compute. reflexivity. Qed.
+
+(* the trace predicate of the harness (corr/Hub_preds.observers_ok, with its own attribution of the
+   messages to sessions) judges the model's quiescent trace of that history the same way *)
+Example obs_ops_trace_predicate : P_hub 4 (model_case 1 [0; 0] obs_ops) = None.
+Proof. vm_compute. reflexivity. Qed.
+
+(* Summary
+   Jg / J                                   the invariant (hub-level part Jh, per-session part view_ok)
+   J_step_gen, J_step                       every request preserves it (joins / internal requests: no "session joined" notice queued)
+   J_deliver                                every delivery of the first queued publication preserves it
+   J_drain, J_qstep, J_vrun                 quiescent steps and histories
+   observers_converge_quiescent             C04, observer side, quiescent semantics (hypothesis: drained)
+   observers_converge_fifo_guarded          the same for explicit deliveries in publication order, with the exclusion
+   observers_fifo_refuted                   publication order alone is not enough (stale "session joined" notice)
+   observers_quiescent_without_drained_refuted   the fuel of drain: why "drained" is assumed *)
